@@ -1543,6 +1543,9 @@ class Engine:
             if isinstance(b, NoneV) or isinstance(a, NoneV):
                 same = isinstance(a, NoneV) and isinstance(b, NoneV)
                 return z3.BoolVal(same if isinstance(op, ast.Is) else not same)
+            if isinstance(a, ObjV) and a.cls == "type" and isinstance(b, ObjV) and b.cls == "type":
+                same = a.fields["name"] == b.fields["name"]  # classes are singletons: `type(x) is int`
+                return z3.BoolVal(same if isinstance(op, ast.Is) else not same)
             raise Unsupported("'is' on non-None values")
         if isinstance(op, (ast.In, ast.NotIn)):
             t = self.contains(b, a, st)
